@@ -178,7 +178,11 @@ func multiScalarmultVartimeFinal(r, point *ge25519.Ge25519, scalar *modm.Bignum2
 		return
 	}
 
-	*r = *point
+	// start from the neutral element, the loop below processes every
+	// bit of the scalar including the most significant one
+	r.Reset()
+	r.Y()[0] = 1
+	r.Z()[0] = 1
 
 	// find the limb where first bit is set
 	for scalar[limb] == 0 {
